@@ -206,9 +206,12 @@ func OpenBucket(urlStr string, bucketName string, mode OpenMode) (b *Bucket, err
 	if exists {
 		bucket.Close(ctx)
 	}
-	// only schedule expiration if bucket is not new. This doesn't need to be locked because only one bucket will execute this code.
+	// only schedule expiration if bucket is not new. The bucket is in the registry by now, so a write through another
+	// handle may already have armed the timer (or the timer may be running): take the expiry manager's lock.
 	if vers != 0 {
+		bucket.expManager.mutex.Lock()
 		bucket._scheduleExpiration()
+		bucket.expManager.mutex.Unlock()
 	}
 
 	return bucketCopy, err
